@@ -241,6 +241,12 @@ impl World {
         if let Ok(mut st) = self.st.try_lock() {
             let who = shuttle::thread::current().name().map(|s| s.to_string());
             let conn = who.as_ref().and_then(|n| st.serving.get(n).copied());
+            if op == 5 {
+                // not a fault: the owner touched the file (contents unchanged, the answer is owed in full)
+                st.log("owner_touch", conn.unwrap_or(usize::MAX), 0);
+                st.reach("owner_touched_a_file_inside_a_request");
+                return;
+            }
             let what = format!("disk_{}:{}", ["?", "read", "open", "stat", "seek"][op.min(4)], if errno == 0 { "eof".to_string() } else { format!("errno{}", errno) });
             st.log("disk_fault", conn.unwrap_or(usize::MAX), (op * 1000 + errno) as u64);
             st.reach("disk_fault_fired");
@@ -752,6 +758,40 @@ impl Backend for SimBackend {
             st.conns[stream].handles += 1;
             Ok(stream)
         })
+    }
+
+    /// simulated time: the sleeper is away for `dur` (the clock moves on by as much); what the run
+    /// spent asleep is kept for the liveness rules of C06 / C07
+    fn slept(&self, dur: std::time::Duration) {
+        let w = match WORLD.get() {
+            Some(w) => w,
+            None => return,
+        };
+        let who = task_name();
+        w.with(|st| {
+            let ms = dur.as_millis().min(u64::MAX as u128 / 4) as u64;
+            st.sim_clock_ns = st.sim_clock_ns.saturating_add((dur.as_nanos().min(u64::MAX as u128 / 4)) as u64);
+            st.log("sleep", usize::MAX, ms);
+            *st.reach.entry("simulated_ms_slept_by_the_code_under_test").or_insert(0) += ms.min(1 << 50);
+            let e = st.reach.entry("longest_single_sleep_ms").or_insert(0);
+            *e = (*e).max(ms.min(1 << 50));
+            if who != "main" && who != "accept" {
+                let e = st.reach.entry("longest_single_sleep_of_a_worker_ms").or_insert(0);
+                *e = (*e).max(ms.min(1 << 50));
+            }
+        });
+    }
+
+    /// the simulated host: one to four processors in half of the runs, the real count otherwise
+    fn available_parallelism(&self) -> Option<usize> {
+        let w = WORLD.get()?;
+        let h = mix(w.sc.sched.seed ^ 0xc9a5, 1);
+        match h % 8 {
+            0 | 1 => Some(1),
+            2 => Some(2),
+            3 => Some(((h >> 8) % 4 + 1) as usize),
+            _ => None,
+        }
     }
 
     fn timer_fires(&self, what: &'static str) -> bool {
